@@ -25,14 +25,31 @@ def inventory():
     return "\n".join(out)
 
 def mutants():
-    out = ["### 11.5 Seeded changes (from fresh sub-agents that saw only the property text) and which checks catch them", "",
-           "| id | breaks | what it needs to manifest | detected by |", "|---|---|---|---|"]
+    out = ["### 11.5 Seeded changes (from fresh sub-agents that saw only the property text) and which checks catch them", ""]
+    sw = {}
+    try:
+        sw = json.load(open(os.path.join(ROOT, "seeded", "SWEEP.json")))
+    except Exception:
+        pass
+    if sw:
+        res = {k: v for k, v in sw.items() if isinstance(v, dict)}
+        good = sorted(k for k, v in res.items() if v.get("result") == "VIOLATION+replay")
+        rest = sorted(k for k in res if k not in good)
+        out += ["Last full sweep (`tools/mutant_sweep.py`: every change against the quick check of the property it breaks, in scratch copies, "
+                "framework commit `%s`): %d of %d reported as `VIOLATION ... replay=` with a concrete failing input; others: %s." %
+                (sw.get("verif_commit", "?"), len(good), len(res), ", ".join("%s (%s)" % (k, res[k].get("result")) for k in rest) or "none"),
+                "A `MISSED` entry whose meta.json has a `status` is a change that a later `fix:` commit neutralised (it no longer breaks the property).", ""]
+    out += ["| id | breaks | what it needs to manifest | detected by |", "|---|---|---|---|"]
     for d in sorted(glob.glob(os.path.join(ROOT, "seeded", "C*_*"))):
         try:
             m = json.load(open(os.path.join(d, "meta.json")))
         except Exception:
             continue
         det = "; ".join("%s: %s" % (k, v) for k, v in (m.get("detected_by") or {}).items())
+        if m.get("status"):
+            det += " — NOW: " + m["status"]
+        if m.get("rebased"):
+            det += " — patch rebased onto the repaired tree"
         need = (m.get("needs_to_manifest") or m.get("summary") or "")
         need = " ".join(str(need).split())[:260]
         out.append("| %s | %s | %s | %s |" % (os.path.basename(d), m.get("breaks_property", "?"), need.replace("|", "/"), det.replace("|", "/")))
